@@ -159,7 +159,8 @@ def corrmtx(x_input, m, method='autocorrelation'):
         x = x.astype(float)
 
 
-    if x.dtype == complex:
+    # any complex dtype (complex64 as well as complex128)
+    if numpy.iscomplexobj(x):
         complex_type = True
     else:
         complex_type = False
